@@ -55,7 +55,8 @@ def DictOf(**items):
     return T("dict", items=items)
 
 
-_SORTS = {"int": z3.IntSort(), "real": z3.RealSort(), "bool": z3.BoolSort(), "str": StrSort, "val": ValSort}
+_SORTS = {"int": z3.IntSort(), "real": z3.RealSort(), "bool": z3.BoolSort(), "str": StrSort, "val": ValSort,
+          "lines": z3.DeclareSort("Lines")}
 
 
 def sort_of(t: T):
